@@ -165,6 +165,17 @@ def _leaf_values(pv, e, depth=0):
     return {norm(e)}
 
 
+def _keeps_key(stmts):
+    """the arm stores merged[key] or extends the value already stored there (either way the key stays in the result)"""
+    for s in stmts:
+        if isinstance(s, (ast.Assign, ast.AugAssign)) and norm((s.targets[0] if isinstance(s, ast.Assign) else s.target)) == "merged[key]":
+            return True
+        if isinstance(s, ast.Expr) and isinstance(s.value, ast.Call) and isinstance(s.value.func, ast.Attribute) and norm(s.value.func.value) == "merged[key]" \
+                and s.value.func.attr in ("extend", "update", "append"):
+            return True
+    return False
+
+
 def r3(c):
     repo = c.repo
     c.rule("C10.R3", "union fold: RunGeneratorResult.config_tree folds every partial result with merge_dicts (no filter); run_partial_generators adds every non-empty result; "
@@ -213,12 +224,12 @@ def r3(c):
         n = chain
         while isinstance(n, ast.If):
             arms += 1
-            assigned += any(isinstance(s, ast.Assign) and norm(s.targets[0]) == "merged[key]" for s in n.body)
+            assigned += _keeps_key(n.body)
             if n.orelse and isinstance(n.orelse[0], ast.If) and len(n.orelse) == 1:
                 n = n.orelse[0]
             else:
                 arms += 1
-                assigned += any(isinstance(s, ast.Assign) and norm(s.targets[0]) == "merged[key]" for s in n.orelse)
+                assigned += _keeps_key(n.orelse)
                 break
         ok = chain is not None and arms == assigned and not [x for x in walk_no_nested(loops[0]) if isinstance(x, (ast.Continue, ast.Break))]
         outer = [x for x in walk_no_nested(md) if isinstance(x, ast.For) and norm(x.iter) == "args"]
